@@ -119,6 +119,9 @@ func (p *VarHeaderPostprocessor) substr(args []string) (func(in string) string, 
 		if from < 0 {
 			from = 0
 		}
+		if to < 0 { // both bounds reach before the start of the value: substr(-10,-5) on "abc"
+			to = 0
+		}
 		if to > l {
 			to = l
 		}
